@@ -33,6 +33,9 @@ var (
 	flagVerbose = flag.Bool("v", false, "print every obligation")
 	flagNoMut   = flag.Bool("nomutants", false, "skip overlay mutants")
 	flagList    = flag.Bool("list", false, "list rules")
+	flagSurvey  = flag.String("survey", "", "development aid: run every mutant of an automut file against all rules and report survivors")
+	flagMutFile = flag.String("mutfile", "", "internal: automut file the -mutant id refers to")
+	flagJobs    = flag.Int("jobs", 12, "parallel workers for -survey")
 )
 
 // Mutant is a textual exact-once replacement applied through the loader overlay.
@@ -91,6 +94,9 @@ func main() {
 	if *flagReplay != "" {
 		os.Exit(replay())
 	}
+	if *flagSurvey != "" {
+		os.Exit(survey())
+	}
 	os.Exit(driver())
 }
 
@@ -118,7 +124,13 @@ func worker() (code int) {
 		return 3
 	}
 	var overlay map[string][]byte
-	if *flagMutant != "" {
+	if *flagMutant != "" && *flagMutFile != "" {
+		var err error
+		if overlay, err = autoOverlay(*flagMutFile, *flagMutant); err != nil {
+			res.Error = err.Error()
+			return 3
+		}
+	} else if *flagMutant != "" {
 		ms, err := loadMutants(*flagVerif)
 		if err != nil {
 			res.Error = err.Error()
